@@ -154,3 +154,15 @@ void epilogue(void) {
   }
 }
 #endif
+
+#if SCEN == 6     /* progress: non-blocking splice / first / next alone */
+void p1(void) { enq(&H, &T, 0); enq(&H, &T, 2); }
+void p2(void) { enq(&H, &T, 1); }
+void c1(void) {
+  enum cds_wfcq_ret r = __cds_wfcq_splice_nonblocking(&H2, &T2, &H, &T);
+  struct cds_wfcq_node *n = __cds_wfcq_first_nonblocking(&H, &T);
+  if (n && n != CDS_WFCQ_WOULDBLOCK) n = __cds_wfcq_next_nonblocking(&H, &T, n);
+  rt_gset(HG_USER, r + 1);
+}
+void epilogue(void) { }
+#endif
